@@ -84,6 +84,10 @@ def verify_case(con: C.Contract, case: C.Case, timeout_ms=10000) -> CaseReport:
             real = ("raise", e.cls)
         except C.CalleeUnspecified as e:
             real = ("callee-unspecified", e.name)
+        if getattr(case, "on_exit", None) is not None:
+            # frame / exception-safety obligations: checked on EVERY exit, normal or exceptional
+            compared[0] += 1
+            case.on_exit(it, ctx, real, rep)
         sx = C.SpecCtx(ctx, it)
         sx.real_args = args1  # for identity (aliasing) clauses of a contract
         try:
